@@ -485,6 +485,20 @@ class Interp:
             return EnumV('core::option::Option', None, sym=('a', name), ty=nty)
         adt = self.f.adt(base)
         if adt:
+            cc = getattr(self, 'ctor_closed', {}).get(base)
+            if cc and not getattr(self, '_in_ctor_closed', False):
+                # every value of this type is its constructor applied to some arguments (model.ctor_closed)
+                from model import params_of as _params_of
+                cb = self.f.bodies[cc[0]]
+                cargs = [self.sym_value(norm_ty(t), '%s.%s' % (name, cc[1][n])) for n, t in _params_of(cb)]
+                n_t, n_g = len(self.tops), len(self.guards)
+                self._in_ctor_closed = True
+                try:
+                    v = self.call_local(cc[0], cargs, None)
+                finally:
+                    self._in_ctor_closed = False
+                if len(self.tops) == n_t and len(self.guards) == n_g and isinstance(v, StructV): return v
+                del self.tops[n_t:]; del self.guards[n_g:]
             if adt['kind'] == 'Struct':
                 fields = {}
                 for fd in adt['variants'][0]['fields']:
@@ -1533,6 +1547,34 @@ class Interp:
                 finally:
                     self.frame().loop_depth -= 1
                 return UNIT
+        if isinstance(b, dict) and b.get('k') == 'If' and b['cond'].get('k') != 'LetCond' and isinstance(b.get('else'), dict):
+            # `while COND { BODY }`: unrolled as long as the condition is decided on the current path (bounded)
+            els = b['else']
+            while els.get('k') == 'Block' and not els.get('stmts') and isinstance(els.get('expr'), dict): els = els['expr']
+            if els.get('k') == 'Block' and len(els.get('stmts', [])) == 1 and els['stmts'][0].get('k') == 'Expr' and 'expr' not in els: els = els['stmts'][0]['e']
+            if els.get('k') == 'Break' and 'value' not in els:
+                def run(n_, splits):
+                    for _n in range(n_, 65):
+                        if self.st.dead: return UNIT
+                        c = self.eval(b['cond'])
+                        if is_term(c): c = sym.as_cond(rebuild(c, lambda x: None))
+                        if c == FALSE: return UNIT
+                        if c != TRUE and is_term(c) and splits < 6:
+                            # the condition depends on a choice made earlier (`n = if len < 63 { 1 } else ...`): the rest of
+                            # the loop is evaluated once per case of the innermost undecided choice
+                            cs = sorted((x for x in sym.cond_atoms(c) if not any(u[0] == 'ite' for u in sym.subterms(x))), key=sym.key)
+                            if cs:
+                                return self.branch([(cs[0], lambda: run(_n, splits + 1)), (TRUE, lambda: run(_n, splits + 1))])
+                        if c != TRUE or _n == 64: return self.top('while loop whose condition is not decided on this path', e)
+                        self.eval(b['then'])
+                        if self.st.skip is not None and self.st.skip != TRUE: return self.top('conditional continue in an unrolled while loop', e)
+                        self.st.skip = None
+                    return UNIT
+                self.frame().loop_depth += 1
+                try:
+                    return run(0, 0)
+                finally:
+                    self.frame().loop_depth -= 1
         return self.top('bare loop', e)
     def e_Break(self, e): return self.top('break', e)
     def e_Continue(self, e):
@@ -1592,6 +1634,20 @@ class Interp:
             def known(iv):
                 sq = iv.seq
                 while isinstance(sq, RefV): sq = sq.place.get()
+                if isinstance(sq, SliceV):
+                    # a sub-range with constant bounds of a sequence that is long enough: its elements one by one
+                    base_ = sq.seq
+                    while isinstance(base_, RefV): base_ = base_.place.get()
+                    if not isinstance(base_, SeqV) or not is_term(sq.lo) or (sq.hi is not None and not is_term(sq.hi)): return None
+                    tl_ = seqlen(base_.segs)
+                    l_ = rng(sq.lo); h_ = rng(sq.hi if sq.hi is not None else tl_)
+                    if l_[0] != l_[1] or h_[0] != h_[1] or h_[0] - l_[0] > 64 or rng(tl_)[0] < h_[0]: return None
+                    n_t = len(self.tops); out = []
+                    for k_ in range(l_[0], h_[0]):
+                        v_ = self.seq_get(base_, C(k_))
+                        if isinstance(v_, Top): del self.tops[n_t:]; return None
+                        out.append(v_)
+                    return out
                 if not isinstance(sq, SeqV) or sq.stores: return None
                 out = []
                 for sg in (norm_segs(sq.segs) if sq.is_bytes() else sq.segs):
@@ -1810,7 +1866,9 @@ class Interp:
             def incr(x):
                 # per-iteration increment of an accumulator expression (joins of accumulators allowed)
                 nonlocal m
+                if x == a: return ZERO
                 if x[0] == 'ite':
+                    if a in subterms(x[1]): return None
                     p, q = incr(x[2]), incr(x[3])
                     return None if p is None or q is None else ite(x[1], p, q)
                 inner = x
@@ -1818,7 +1876,18 @@ class Interp:
                     if m not in (None, x[2]): return None
                     m = x[2]; inner = x[1]
                 dd = sub(inner, a)
-                return None if a in subterms(dd) else dd
+                if a not in subterms(dd): return dd
+                if inner[0] == 'lin':
+                    # (a joined accumulator) + more: exactly one summand carries the accumulator, with coefficient one
+                    hold = [(u, c) for u, c in inner[1] if a in subterms(u)]
+                    if len(hold) == 1 and hold[0][1] == 1:
+                        d0 = incr(hold[0][0])
+                        if d0 is None: return None
+                        rest = sub(inner, hold[0][0])
+                        return None if a in subterms(rest) else add(d0, rest)
+                elif inner is not x:
+                    return incr(inner)
+                return None
             d = incr(new)
             if d is None:
                 self._set(st, self.top('loop-carried value is not an accumulator: %s' % show(new), e)); continue
